@@ -251,6 +251,11 @@ def run(case):
         if not _pd_ok(cfg, cfg.values):
             skipped_pd += 1
             return
+        if any(abs(cfg.values[nm] - tb[nm]) > 1e3 * (abs(tb[nm]) + 1.0) for nm in names if nm in tb):
+            # the parameter values of the configuration come from a fit that ran away (no minimum: e.g. a peak model with x uncertainties only); costs there are
+            # -inf / nan / 1e300 on both sides and compare as noise
+            labels.add("checkpoint_skipped_parameters_ran_away")
+            return
         if obs == "error_band()" and H.errors_valid and H.parameter_cov_mat is not None:
             # history-free part: the band is the linear propagation of the covariance matrix the fit reports *now* (2 % as in C07: numerical derivatives)
             rf = fs.Ref(cfg.as_spec())
@@ -533,6 +538,15 @@ def _min_equal(obs, h, f, H, F, truth=None):
             pass
     if not np.isfinite(cond_cor) or cond_cor > 1e4:
         return True
+    # a parameter that the data do not determine (HESSE uncertainty of the fresh fit > 3 x its size, e.g. the width of a peak that falls between two points):
+    # the curvature along it is noise and differs from one minimisation to the next
+    try:
+        dF = np.sqrt(np.clip(np.diag(np.asarray(F.parameter_cov_mat, float)), 0, None))
+        pF = np.abs(np.asarray(F.parameter_values, float))
+        if np.any((dF > 3.0 * pF) & (pF > 0) & np.isfinite(dF)):
+            return True
+    except Exception:  # noqa
+        pass
     # the *fresh* fit ran away from the region where the data were generated (a parameter more than 1000 x (|truth| + 1) from the truth: the cost has no
     # minimum there, e.g. a peak model on data that lost the peak): the configuration is not a well-posed problem, curvatures at "infinity" are noise
     if truth is not None:
